@@ -323,15 +323,10 @@ def swap_args(prog, f, e):
 
 
 def d2(ctx, prog, dispatch_call):
+    from .. import grouplayout as gl
     hw = prog.need_class(M, 'HammingWeight')
     f = prog.resolve_method(hw, '_compute')
     data, axis = f.params[1], f.params[2]
-    pm = astutil.parents(f.node)
-    # the variable holding the per-word weights
-    st = pm.get(dispatch_call)
-    if not (isinstance(st, ast.Assign) and isinstance(st.targets[0], ast.Name)):
-        raise AnalysisError('per-word weights are not bound to a local')
-    hwvar = st.targets[0].id
     ifs = [n for n in f.node.body if isinstance(n, ast.If) and 'nb_words' in norm(n.test) and not isinstance(n.body[-1], ast.Raise)]
     if len(ifs) != 1:
         raise AnalysisError('grouping branch (if on nb_words) not identified')
@@ -345,134 +340,46 @@ def d2(ctx, prog, dispatch_call):
                   f'`{norm(br.test)}` selects grouping for every nb_words >= 2', f.where(br))
     except Undecidable as e:
         ctx.undecided('C15-D2', f'{key} guard', f'guard not evaluable: {e}', f.where(br))
-    # straight-line environment of the branch (last binding before the loop / at the end)
-    loops = [n for n in br.body if isinstance(n, ast.For)]
-    if len(loops) != 1 or br.orelse:
-        raise AnalysisError('grouping loop not identified')
-    loop = loops[0]
-    env = {}
-    for s in br.body:
-        if s is loop:
-            break
-        if isinstance(s, ast.Assign) and len(s.targets) == 1 and isinstance(s.targets[0], ast.Name):
-            env[s.targets[0].id] = s.value
-    post = {}
-    for s in br.body[br.body.index(loop) + 1:]:
-        if isinstance(s, ast.Assign) and len(s.targets) == 1 and isinstance(s.targets[0], ast.Name):
-            post[s.targets[0].id] = s.value
-    if not isinstance(loop.target, ast.Name):
-        raise AnalysisError('grouping loop variable not a name')
-    iv = loop.target.id
-    # store: out[iv] = sum(<slice var or expr>, axis=0)
-    stores = [s for s in loop.body if isinstance(s, (ast.Assign, ast.AugAssign)) and isinstance((s.targets[0] if isinstance(s, ast.Assign) else s.target), ast.Subscript)]
-    if len(stores) != 1:
-        raise AnalysisError('grouping loop does not have exactly one store')
-    s = stores[0]
-    tgt = s.targets[0] if isinstance(s, ast.Assign) else s.target
-    outvar = norm(tgt.value)
-    lenv = {}
-    for x in loop.body:
-        if isinstance(x, ast.Assign) and isinstance(x.targets[0], ast.Name):
-            lenv[x.targets[0].id] = x.value
-    ctx.check(norm(tgt.slice) == iv, 'C15-D2', f'{key} store', f'group {iv} is stored at `{norm(tgt)}`', f'group {iv} is stored at {outvar}[{iv}]', f.where(s))
-    rhs = s.value
-    if not (isinstance(rhs, ast.Call) and last(norm(rhs.func)) in ('sum', 'add.reduce')):
-        ctx.undecided('C15-D2', f'{key} sum', f'`{norm(rhs)[:60]}` is not a sum', f.where(s))
-        return
-    if isinstance(rhs.func, ast.Attribute) and not (prog.dotted(f.mod, rhs.func) or '').startswith('numpy'):
-        arr, rest = rhs.func.value, rhs.args
-    else:
-        arr, rest = (rhs.args[0] if rhs.args else None), rhs.args[1:]
-    ax = None
-    for k in rhs.keywords:
-        if k.arg == 'axis':
-            ax = k.value
-    if ax is None and rest:
-        ax = rest[0]
-    ctx.check(ax is not None and const_value(ax) == 0, 'C15-D2', f'{key} sum', f'the group is summed over axis `{norm(ax) if ax is not None else "all axes"}`, not over the '
-              f'front (word) axis only', 'each group is summed over the front (word) axis only', f.where(s))
-    sl = lenv.get(arr.id) if isinstance(arr, ast.Name) and arr.id in lenv else arr
-    if not (isinstance(sl, ast.Subscript) and isinstance(sl.slice, ast.Slice)):
-        ctx.undecided('C15-D2', f'{key} slice', f'summed operand `{norm(sl)[:60]}` is not a slice of the first axis', f.where(s))
-        return
-    lo, hi, step = sl.slice.lower, sl.slice.upper, sl.slice.step
-    srcvar = norm(sl.value)
-    k = 'self.nb_words'
-
-    def sub(e, val):
-        class R(ast.NodeTransformer):
-            def visit_Name(self, n):
-                return ast.Constant(val) if n.id == iv else n
-        return R().visit(ast.parse(norm(e), mode='eval').body)
-    a_lo = astutil.affine(lo) if lo is not None else {'': 0}
-    a_hi = astutil.affine(hi) if hi is not None else None
-    if a_lo is None or a_hi is None or step is not None:
-        ctx.undecided('C15-D2', f'{key} slice', f'slice bounds `{norm(sl.slice)}` are not affine', f.where(s))
-    else:
-        lo0 = astutil.affine(sub(lo, 0)) if lo is not None else {'': 0}
-        lo1 = astutil.affine(sub(lo, 1)) if lo is not None else {'': 0}
-        hi0 = astutil.affine(sub(hi, 0))
-        width = {t: a_hi.get(t, 0) - a_lo.get(t, 0) for t in set(a_hi) | set(a_lo)}
-        width = {t: v for t, v in width.items() if v}
-        ok = astutil.affine_eq(lo0, {'': 0}) and astutil.affine_eq(hi0, lo1) and width == {k: 1}
-        ctx.check(bool(ok), 'C15-D2', f'{key} slice', f'slices `[{norm(sl.slice)}]` are not the consecutive groups [i*k, (i+1)*k) of k = nb_words words '
-                  f'(first lower bound {lo0}, upper(0) {hi0} vs lower(1) {lo1}, width {width})',
-                  f'slices [{norm(sl.slice)}]: lower(0) = 0, upper(i) = lower(i+1), width nb_words', f.where(s), lower=norm(lo) if lo else '0', upper=norm(hi))
-    # loop range: all groups of the output
-    it = loop.iter
-    ok_range = isinstance(it, ast.Call) and last(norm(it.func)) == 'range' and len(it.args) == 1 and norm(it.args[0]) in (f'{outvar}.shape[0]', f'len({outvar})')
-    ctx.pattern(ok_range, 'C15-D2', f'{key} range', f'loop range `{norm(it)[:50]}` is not all rows of `{outvar}`', f'the loop visits every row of {outvar}', f.where(loop))
-    # front-axis discipline: source = swapaxes(hw, 0, axis); out = zeros(final_shape).swapaxes(0, axis); returned = swapaxes(out, 0, axis)
-    src_def = env.get(srcvar)
-    sw = swap_args(prog, f, src_def) if src_def is not None else None
-    ok_src = bool(sw) and norm(sw[0]) == hwvar and {sw[1], sw[2]} == {'0', axis}
-    ctx.check(ok_src, 'C15-D2', f'{key} input layout', f'the sliced array `{srcvar}` is `{norm(src_def)[:70] if src_def is not None else "?"}`: not the per-word weights with `{axis}` '
-              f'swapped to the front', f'{srcvar} = weights with axis `{axis}` swapped to the front', f.where(loop))
-    out_def = env.get(outvar)
-    swo = swap_args(prog, f, out_def) if out_def is not None else None
-    ok_out = bool(swo) and {swo[1], swo[2]} == {'0', axis}
-    ctx.check(ok_out, 'C15-D2', f'{key} output layout', f'the output `{outvar}` is `{norm(out_def)[:70] if out_def is not None else "?"}`: not a view with `{axis}` swapped to the front',
-              f'{outvar} is allocated in the final shape and viewed with axis `{axis}` at the front', f.where(loop))
-    if ok_out:
-        alloc = swo[0]
-        shp = None
-        if isinstance(alloc, ast.Call) and last(norm(alloc.func)) in ('zeros', 'empty') and alloc.args:
-            shp = alloc.args[0]
-            if isinstance(shp, ast.Name):
-                shp = env.get(shp.id)
-        good = False
-        if isinstance(shp, ast.ListComp) or isinstance(shp, ast.GeneratorExp) or (isinstance(shp, ast.Call) and shp.args and isinstance(shp.args[0], (ast.ListComp, ast.GeneratorExp))):
-            comp = shp if isinstance(shp, (ast.ListComp, ast.GeneratorExp)) else shp.args[0]
-            g = comp.generators[0]
-            if len(comp.generators) == 1 and isinstance(g.iter, ast.Call) and norm(g.iter) == f'enumerate({data}.shape)' and isinstance(g.target, ast.Tuple) and isinstance(comp.elt, ast.IfExp):
-                i_, d_ = norm(g.target.elts[0]), norm(g.target.elts[1])
-                t, b, o = comp.elt.test, comp.elt.body, comp.elt.orelse
-                grp = None
-                if norm(t) in (f'{i_} != {axis}', f'{axis} != {i_}') and norm(b) == d_:
-                    grp = o
-                elif norm(t) in (f'{i_} == {axis}', f'{axis} == {i_}') and norm(o) == d_:
-                    grp = b
-                if grp is not None:
-                    gdef = env.get(grp.id) if isinstance(grp, ast.Name) else grp
-                    good = isinstance(gdef, ast.BinOp) and isinstance(gdef.op, ast.FloorDiv) and norm(gdef.left) == f'{data}.shape[{axis}]' and norm(gdef.right) == k
-                    if not good and gdef is not None:
-                        ctx.fail('C15-D2', f'{key} group count', f'the grouped axis gets `{norm(gdef)[:60]}` entries, not {data}.shape[{axis}] // nb_words', f.where(br))
-                        good = None
-        if good:
-            ctx.ok('C15-D2', f'{key} group count', f'output shape = data shape with axis `{axis}` replaced by shape[{axis}] // nb_words', f.where(br))
-        elif good is False:
-            ctx.undecided('C15-D2', f'{key} group count', 'output shape expression not recognised', f.where(br))
-    # what the function returns after the branch
-    rets = [n for n in f.node.body if isinstance(n, ast.Return)]
-    if len(rets) != 1 or not isinstance(rets[0].value, ast.Name):
-        raise AnalysisError('HammingWeight._compute does not end with `return <local>`')
-    rv = rets[0].value.id
-    ctx.check(rv == hwvar or rv in post, 'C15-D2', f'{key} ungrouped return', f'`{rv}` returned without grouping is not the per-word weights', 'nb_words = 1 returns the per-word weights unchanged', f.where(rets[0]))
-    fin = post.get(rv)
-    swf = swap_args(prog, f, fin) if fin is not None else None
-    ok_fin = bool(swf) and norm(swf[0]) == outvar and {swf[1], swf[2]} == {'0', axis}
-    ctx.check(ok_fin, 'C15-D2', f'{key} swap back', f'the grouped result returned is `{norm(fin)[:70] if fin is not None else rv}`: the front axis is not swapped back to `{axis}`',
-              f'the grouped result is returned with the front axis swapped back to `{axis}`', f.where(rets[0]))
+    # layout interpretation over every (rank, axis) configuration, both branches
+    nconf = 0
+    seen_events = {}
+    for rank in range(1, 5):
+        for a in range(rank):
+            for take in (True, False):
+                nconf += 1
+                it = gl.Interp(prog, f, data, axis, rank, a, dispatch_call, take_branch=take)
+                ckey = f'{key} layout rank={rank} axis={a}' + ('' if take else ' (nb_words = 1)')
+                try:
+                    ret = it.run()
+                except gl.Unknown as e:
+                    ctx.undecided('C15-D2', ckey, f'layout not derivable: {e}', f.where(br))
+                    continue
+                for kind, node, text in it.events:
+                    ek = (kind, norm(node)[:90], text)
+                    seen_events.setdefault(ek, (node, rank, a))
+                if not isinstance(ret, gl.Arr):
+                    ctx.fail('C15-D2', ckey, 'the function does not return an array', f.where())
+                    continue
+                if take:
+                    want = [l if l != 'W' else 'G' for l in it.labels]
+                    if any(k == 'bad' for k, _, _ in it.events):
+                        continue      # reported once below, by construct
+                    if ret.labels != want:
+                        ctx.fail('C15-D2', ckey, f'for {rank}-dimensional data grouped along axis {a} the result is laid out ({",".join(ret.labels)}); every other dimension must stay '
+                                 f'in place: ({",".join(want)}) (d_i = untouched axes, G = groups) - invisible at run time when the exchanged extents are equal', f.where(br))
+                    elif not ret.grouped:
+                        ctx.fail('C15-D2', ckey, 'the value returned is not the array of group sums', f.where(br))
+                    else:
+                        ctx.ok('C15-D2', ckey, f'result ({",".join(ret.labels)}): groups on axis {a}, other axes in place', f.where(br))
+                else:
+                    ctx.check(ret.labels == it.labels and ret.origin == 'hw' and not any(k == 'bad' for k, _, _ in it.events), 'C15-D2', ckey,
+                              f'with nb_words = 1 the function returns {ret} ({ret.origin}), not the per-word weights unchanged', 'nb_words = 1 returns the per-word weights unchanged', f.where())
+    for (kind, ntxt, text), (node, rank, a) in seen_events.items():
+        if kind == 'bad':
+            ctx.fail('C15-D2', f'{key}::{ntxt}', f'{text} (first seen for rank {rank}, axis {a})', f.where(node))
+        else:
+            ctx.ok('C15-D2', f'{key}::{ntxt}', text, f.where(node))
+    ctx.unit('grouping_configurations_interpreted', nconf)
 
 
 # ---------------------------------------------------------------------------------------------------------------- D3
@@ -565,7 +472,7 @@ EXPECT = {   # from the property statement / the functions' documentation
 NAN_BLIND = {'max': 'nanmax', 'amax': 'nanmax', 'min': 'nanmin', 'amin': 'nanmin', 'sum': 'nansum'}
 
 
-def reducer_term(prog, f, e, data, axis):
+def reducer_term(prog, f, e, data, axis, _depth=0):
     """(reducer, pre, post, axis expression) of the returned expression, or None"""
     post = 'id'
     if isinstance(e, ast.UnaryOp) and isinstance(e.op, ast.USub):
@@ -573,9 +480,16 @@ def reducer_term(prog, f, e, data, axis):
     if not isinstance(e, ast.Call):
         return None
     name = last(norm(e.func))
+    sibling = None
     if isinstance(e.func, ast.Attribute) and (prog.dotted(f.mod, e.func) or '').startswith('numpy'):
         if not e.args:
             return None
+        arr, rest = e.args[0], e.args[1:]
+    elif isinstance(e.func, ast.Name) and _depth < 3:
+        r = prog.resolve(f.mod, e.func)
+        if not (r and r[0] == 'func' and any(last(n) == 'discriminant' for n, _ in prog.decorators(r[1]))) or not e.args:
+            return None
+        sibling = r[1]
         arr, rest = e.args[0], e.args[1:]
     elif isinstance(e.func, ast.Attribute):
         arr, rest = e.func.value, e.args
@@ -598,6 +512,25 @@ def reducer_term(prog, f, e, data, axis):
         pre, arr = 'neg', arr.args[0]
     if norm(arr) != data:
         return None
+    if sibling is not None:
+        # a decorated sibling discriminant: its own term, composed; without an axis argument its wrapper default (-1) applies
+        body = body_no_doc(sibling)
+        if len(body) != 1 or not isinstance(body[0], ast.Return):
+            return None
+        sd, sa = (sibling.params + ['?', '?'])[:2]
+        t = reducer_term(prog, sibling, body[0].value, sd, sa, _depth + 1)
+        if t is None:
+            return None
+        sred, spre, spost, sax = t
+        if sax is None or norm(sax) != sa:
+            return None            # the sibling itself is reported on its own
+        comp = {('id', 'id'): 'id', ('id', 'abs'): 'abs', ('id', 'neg'): 'neg', ('abs', 'id'): 'abs', ('neg', 'id'): 'neg', ('neg', 'neg'): 'id',
+                ('abs', 'abs'): 'abs', ('neg', 'abs'): 'abs'}
+        p2 = comp.get((pre, spre))          # first `pre` (here), then the sibling's
+        q2 = comp.get((spost, post))
+        if p2 is None or q2 is None:
+            return None
+        return sred, p2, q2, (ax if ax is not None else ast.Constant(-1))
     return name, pre, post, ax
 
 
